@@ -40,7 +40,7 @@ pub fn info() -> PropInfo {
         id: "C12",
         run,
         replay,
-        rule: "cases = (well-formed document with repeated names at several depths, <n/> and <n></n> forms, comments/CDATA/PIs/attribute values/text containing look-alike end tags, blanks before '>' of end tags; a start event of that document; trim_text_start/trim_text_end/expand_empty_elements, name trimming on/off (off: documents without blanks in end tags), name checking on/off; read_to_end / read_text on the slice, read_to_end_into on a chunked source, read_to_end_into_async; optionally the document truncated somewhere after the chosen start tag). Oracle from the generator's tree: the returned span is exactly (end of the start tag, offset of '<' of the matching end tag), empty for an expanded empty element; read_text returns input[span]; the next event equals the event following that end tag in a plain full read; config() after the call equals config() before it, also when the call fails. EVERY start event of sampled documents, plus proptest (document, start, truncation). Non-trivial = the skipped element contains a nested element of the same name or a look-alike end tag, or the call failed. In half of the cases the reader has a HISTORY before the call under test: a small element in front of the document is skipped first - with an ill-formed body, so that the call fails with a recoverable error, or well-formed - while the trimming switches have the opposite values; the switches are then set to the case's values and the call under test must behave as if nothing had happened before.",
+        rule: "cases = (well-formed document with repeated names at several depths, <n/> and <n></n> forms, comments/CDATA/PIs/attribute values/text containing look-alike end tags, blanks before '>' of end tags; a start event of that document; trim_text_start/trim_text_end/expand_empty_elements, name trimming on/off (off: documents without blanks in end tags), name checking on/off; read_to_end / read_text on the slice, read_to_end_into on a chunked source, read_to_end_into_async; optionally the document truncated somewhere after the chosen start tag). Oracle from the generator's tree: the returned span is exactly (end of the start tag, offset of '<' of the matching end tag), empty for an expanded empty element; read_text returns input[span]; the next event equals the event following that end tag in a plain full read; config() after the call equals config() before it, also when the call fails. EVERY start event of sampled documents, plus proptest (document, start, truncation). Non-trivial = the skipped element contains a nested element of the same name or a look-alike end tag, or the call failed. In half of the cases the reader has a HISTORY before the call under test: a small element in front of the document is skipped first - with an ill-formed body, so that the call fails with a recoverable error, or well-formed - while the trimming switches have the opposite values; the switches are then set to the case's values and the call under test must behave as if nothing had happened before. Every call variant is also made on an NsReader (read_to_end, read_text, read_to_end_into, read_to_end_into_async of the namespace-aware reader).",
         assumptions: &["documents are well-formed; name checking stays on (default)", "a truncated document must make the call fail when the cut lies before the end of the matching end tag"],
         level: "exploration",
         variants: &["full"],
@@ -195,7 +195,8 @@ pub fn check(c: &Case) -> Verdict {
             Out { span, text, next, cfg_before, cfg_after }
         }};
     }
-    let out: Out = match c.variant % 4 {
+    // variants 4..7: the same four calls on an NsReader (its wrappers also maintain the namespace scopes)
+    let out: Out = match c.variant % 8 {
         0 => {
             let mut r = Reader::from_reader(&data[..]);
             seek_and_skip!(r, r.read_event(), (r.read_to_end(qn).map_err(|e| format!("{:?}", e)), None), r.read_to_end(QName(b"zq")).map(|_| ()))
@@ -224,7 +225,7 @@ pub fn check(c: &Case) -> Verdict {
                 r.read_to_end_into(QName(b"zq"), &mut buf2).map(|_| ())
             )
         }
-        _ => {
+        3 => {
             let mut r = Reader::from_reader(ChunkedAsync::new(&data, cuts, vec![0, 1, 2]));
             let mut buf = Vec::new();
             let mut buf2 = Vec::new();
@@ -238,8 +239,50 @@ pub fn check(c: &Case) -> Verdict {
                 block_on(r.read_to_end_into_async(QName(b"zq"), &mut buf2)).map(|_| ())
             )
         }
+        4 => {
+            let mut r = quick_xml::reader::NsReader::from_reader(&data[..]);
+            seek_and_skip!(r, r.read_event(), (r.read_to_end(qn).map_err(|e| format!("{:?}", e)), None), r.read_to_end(QName(b"zq")).map(|_| ()))
+        }
+        5 => {
+            let mut r = quick_xml::reader::NsReader::from_reader(&data[..]);
+            seek_and_skip!(r, r.read_event(), {
+                let before = r.buffer_position();
+                match r.read_text(qn) {
+                    Ok(t) => (Ok(before..before + t.len() as u64), Some(t.into_owned())),
+                    Err(e) => (Err(format!("{:?}", e)), None),
+                }
+            }, r.read_text(QName(b"zq")).map(|_| ()))
+        }
+        6 => {
+            let mut r = quick_xml::reader::NsReader::from_reader(ChunkedBufRead::new(&data, cuts));
+            let mut buf = Vec::new();
+            let mut buf2 = Vec::new();
+            seek_and_skip!(
+                r,
+                {
+                    buf.clear();
+                    r.read_event_into(&mut buf)
+                },
+                (r.read_to_end_into(qn, &mut buf2).map_err(|e| format!("{:?}", e)), None),
+                r.read_to_end_into(QName(b"zq"), &mut buf2).map(|_| ())
+            )
+        }
+        _ => { // 7
+            let mut r = quick_xml::reader::NsReader::from_reader(ChunkedAsync::new(&data, cuts, vec![0, 1, 2]));
+            let mut buf = Vec::new();
+            let mut buf2 = Vec::new();
+            seek_and_skip!(
+                r,
+                {
+                    buf.clear();
+                    block_on(r.read_event_into_async(&mut buf))
+                },
+                (block_on(r.read_to_end_into_async(qn, &mut buf2)).map_err(|e| format!("{:?}", e)), None),
+                block_on(r.read_to_end_into_async(QName(b"zq"), &mut buf2)).map(|_| ())
+            )
+        }
     };
-    let ctx = || format!("skip <{}> (start tag ends at {}) variant {} cfg={} | doc {:?}", name, start_end, c.variant % 4, cfg_show(cfg), B::show(&data));
+    let ctx = || format!("skip <{}> (start tag ends at {}) variant {} cfg={} | doc {:?}", name, start_end, c.variant % 8, cfg_show(cfg), B::show(&data));
     if out.cfg_after != out.cfg_before {
         return Verdict::fail(format!("configuration changed by the call: before {}, after {} (result {:?}) | {}", cfg_show(out.cfg_before), cfg_show(out.cfg_after), out.span, ctx()));
     }
@@ -275,6 +318,9 @@ pub fn check(c: &Case) -> Verdict {
         }
     }
     v.classes.push(["read_to_end", "read_text", "read_to_end_into", "read_to_end_into_async"][(c.variant % 4) as usize]);
+    if c.variant % 8 >= 4 {
+        v.classes.push("through-NsReader");
+    }
     match c.prelude % 3 {
         1 => v.classes.push("after-an-earlier-failed-skip-and-a-switch-change"),
         2 => v.classes.push("after-an-earlier-successful-skip-and-a-switch-change"),
@@ -298,7 +344,7 @@ fn run(ctx: &Ctx) {
             let n = r.flat.iter().filter(|f| matches!(f.kind, FlatKind::Start(_) | FlatKind::Empty(_))).count().max(1);
             let mut out = vec![];
             for k in 0..n {
-                for variant in 0..4u8 {
+                for variant in 0..8u8 {
                     let cfgsel = (i as usize + k + variant as usize) % 8;
                     let cfg = [0, TRIM_START, TRIM_END, TRIM_START | TRIM_END, EXPAND_EMPTY, EXPAND_EMPTY | TRIM_START, EXPAND_EMPTY | TRIM_END, EXPAND_EMPTY | TRIM_START | TRIM_END][cfgsel] | if (i as usize + k) % 3 == 0 { 0 } else { TRIM_NAMES } | if (k + variant as usize) % 5 == 0 { 1 } else { 0 };
                     out.push(Case { doc: d.clone(), target: ((k * 65536 + 32768) / n) as u16, cfg, variant, piece: [0, 1, 2, 5][(k + i as usize) % 4], truncate: None, prelude: [0u8, 0, 1, 2][(k + 2 * variant as usize + i as usize) % 4] });
@@ -320,13 +366,13 @@ fn run(ctx: &Ctx) {
             let len = r.text.len();
             let mut out = vec![];
             for t in 0..=len.min(200) {
-                out.push(Case { doc: d.clone(), target: (i as u16).wrapping_mul(7919), cfg: [TRIM_START | TRIM_NAMES, 0, TRIM_START | TRIM_END | TRIM_NAMES][t % 3], variant: (t % 4) as u8, piece: 1, truncate: Some(((t * 65536) / (len.min(200) + 1)) as u16), prelude: [0u8, 1, 0, 2][(t / 3) % 4] });
+                out.push(Case { doc: d.clone(), target: (i as u16).wrapping_mul(7919), cfg: [TRIM_START | TRIM_NAMES, 0, TRIM_START | TRIM_END | TRIM_NAMES][t % 3], variant: (t % 8) as u8, piece: 1, truncate: Some(((t * 65536) / (len.min(200) + 1)) as u16), prelude: [0u8, 1, 0, 2][(t / 3) % 4] });
             }
             out
         },
         check,
     );
-    let strat = move || Box::new((doc_strategy(&p), any::<u16>(), 0u8..128, 0u8..4, 0u8..6, prop::option::weighted(0.3, any::<u16>()), 0u8..3).prop_map(|(doc, target, cfg, variant, piece, truncate, prelude)| Case { doc, target, cfg, variant, piece, truncate, prelude }));
+    let strat = move || Box::new((doc_strategy(&p), any::<u16>(), 0u8..128, 0u8..8, 0u8..6, prop::option::weighted(0.3, any::<u16>()), 0u8..3).prop_map(|(doc, target, cfg, variant, piece, truncate, prelude)| Case { doc, target, cfg, variant, piece, truncate, prelude }));
     ctx.run_proptest_with("documents-x-random-start", ctx.tier.pick(600_000, 5_000_000), strat, check);
 }
 
